@@ -75,6 +75,7 @@ type c14Case struct {
 
 	// evidence
 	nBackups, nRestores, nRepeat, nOther, nCompact, nReopen, nHashChecks, nPurged, nImmediate, nCmds, nLaterDumps int
+	nPurgedDuringRestore int
 }
 
 func (cs *c14Case) logf(f string, args ...interface{}) {
@@ -383,6 +384,15 @@ func (cs *c14Case) restore(k *ckpt, what string) bool {
 	err := cs.a.DB().Restore(k.Term, k.Idx)
 	cs.logf("%s %s -> %v", what, k.name(), err)
 	if err != nil {
+		// The purge step of the backup goroutine runs asynchronously after
+		// GetResult() returned; it may remove an unprotected old checkpoint
+		// between the Stat above and the Restore (seen on an idle machine by
+		// `vp check`). That is the "purged meanwhile" case, not a failure of
+		// the restore; whether the purge was admissible is judged by checkDirs.
+		if _, serr := os.Stat(k.Dir); serr != nil {
+			cs.nPurgedDuringRestore++
+			return false
+		}
 		cs.violation("restore-fails/"+cs.Engine, fmt.Sprintf("%s of existing completed checkpoint %s failed: %v", what, k.name(), err), map[string]interface{}{"checkpoint": k.name()})
 		return false
 	}
@@ -845,6 +855,7 @@ func runC14(c *vc.Ctx) error {
 		c.Ev.Count("checkpoints_taken", int64(cs.nBackups))
 		c.Ev.Count("checkpoints_taken_continue_immediately_after_waitready", int64(cs.nImmediate))
 		c.Ev.Count("restores", int64(cs.nRestores))
+		c.Ev.Count("checkpoints_purged_between_stat_and_restore", int64(cs.nPurgedDuringRestore))
 		c.Ev.Count("repeated_restores", int64(cs.nRepeat))
 		c.Ev.Count("restores_on_other_node", int64(cs.nOther))
 		c.Ev.Count("compactions", int64(cs.nCompact))
